@@ -54,6 +54,8 @@ def run(ctx):
                 continue
             op, impl = l.split("\t", 1)
             w = op.split(" ")
+            if w[0] == "bb":
+                outcomes["bb:" + impl.split(";")[1]] = outcomes.get("bb:" + impl.split(";")[1], 0) + 1
             if w[0] in ("mux", "tconn") and len(w) > 2:
                 evs = [w[0] + "." + (e[0] + (e[e.rfind(":"):] if (e[0] in "FD" or (w[0] == "tconn" and e[0] == "L")) else "")) for e in w[2].split(",") if e and e != "-"]
                 for e in evs:
@@ -66,7 +68,13 @@ def run(ctx):
         ctx.coverage["event_bigrams"] = len(bigrams)
         ctx.coverage["call_outcomes"] = outcomes
         ctx.coverage["distinct_nontrivial"] = len(bigrams)
-    ctx.coverage["rule"] = ("Buffered stress: 8 goroutines × 60 (thorough 400) barrier-synchronised ReadOffset(tag) rounds on one Conn over a unix socketpair, 6 (20) scenarios; "
+    ctx.coverage["rule"] = ("Byte-level (op bb): 160 (thorough 1600) single Fetch exchanges on a fresh Conn — fetch v2/v5/v10 headers, 0–3 magic-0/1 messages with null/empty/random "
+                            "keys and values, some below the fetch offset; truncated last message, stream ending inside the frame, set-size mismatch, watermark = offset, partition "
+                            "errors, a following frame; 0–4 ReadMessage / Read(cap) calls with capacities around the value lengths, then Close — results, Close error, conn kept and "
+                            "bytes consumed compared with Model/BatchBytes.fetchBatch; monitor: a kept conn consumed exactly the declared frame. "
+                            "Fetch family: one caller, fetch v2/v5/v10 × MaxBytes {1MiB, 64, 200, 1} × keyed/unkeyed, Batch read through rm / rdF / rdsmall / rdexact / rdlarge mixes, each "
+                            "followed by a tagged ReadOffset; value tails and skipped bytes spell a frame for the next correlation id with a foreign tag. "
+                            "Buffered stress: 8 goroutines × 60 (thorough 400) barrier-synchronised ReadOffset(tag) rounds on one Conn over a unix socketpair, 6 (20) scenarios; "
                             "Conn: 1–6 goroutines × 1–4 calls (ReadOffset(tag), ReadPartitions(t<tag>), ReadBatchWith(MaxWait=tag) holding the read lock) on one Conn over net.Pipe; "
                             "the broker holds 1..n requests and answers fifo / reversed / shuffled with gaps; faults by request index: drop, error code, header-then-late-body, "
                             "truncated body + close, close; single-caller scenarios add frames with foreign ids and duplicates; conn-wide deadlines 40–120 ms. "
